@@ -47,12 +47,13 @@ class _Upstream:
         return t, proto
 
 
-def _setup(fault=None):
-    ph = ProxyHandler("gemini://up.example:1970", prefix="/", strip_prefix=False, timeout=TIMEOUT)
+def _setup(fault=None, ph=None, path=b"/doc?x=1"):
+    if ph is None:
+        ph = ProxyHandler("gemini://up.example:1970", prefix="/", strip_prefix=False, timeout=TIMEOUT)
     p, t, loop = make(ph.handle)
     bind(cs, _asyncio, FakeAsyncio(loop))      # client and server side share the hand-driven loop
     up = _Upstream(loop, fault)
-    p.data_received(b"gemini://front.example/doc?x=1\r\n")
+    p.data_received(b"gemini://front.example" + path + b"\r\n")
     loop.run_ready()
     return ph, p, t, loop, up
 
@@ -137,6 +138,47 @@ def relay_c(si: int, mi: int, body: bytes, n: int, cut: int) -> bool:
     post: _
     """
     return _relay(si, mi, body, n, cut)
+
+
+S2 = [1, 3, 5, 0, 2, 4, 6, 7]           # indices into STATUS: 20, 31, 51 first (quick tier)
+NS2 = pick(3, len(S2))
+
+
+def relay_twice(s1: int, s2: int, m1: int, m2: int, same_url: bool, f1: int) -> bool:
+    """
+    pre: 0 <= s1 < NS2 and 0 <= s2 < NS2 and 0 <= m1 <= 1 and 0 <= m2 <= 1
+    pre: 0 <= f1 <= 2
+    post: _
+    """
+    # the server serves every connection with ONE proxy handler (and its one client object): the second exchange is
+    # relayed from what the upstream says THEN, whatever the first one was (a response, a refusal, an early close)
+    ph = None
+    for k, (si, mi) in enumerate(((S2[s1], m1), (S2[s2], m2))):
+        fault = None
+        if k == 0 and f1 == 1:
+            fault = REFUSE
+        ph, p, t, loop, up = _setup(fault, ph, b"/doc?x=1" if (same_url or k == 0) else b"/other")
+        if fault is not None:
+            loop.run_ready()
+            if not _is43(t):
+                return V(False)
+            continue
+        if len(up.conns) != 1:
+            return V(False)
+        head = STATUS[si] + b" " + METAS[[0, 4][mi]] + b"\r\n"
+        body = (b"first" if k == 0 else b"second-body") if STATUS[si][:1] == b"2" else b""
+        stream = mk(head, body)
+        if k == 0 and f1 == 2:
+            part, _ = stream.cut(4)
+            _feed_upstream(up, loop, part, 0, 0)            # the upstream dies inside the header
+            if not _is43(t):
+                return V(False)
+            continue
+        _feed_upstream(up, loop, stream, 5, 0)
+        data, closes, late = wire_response(t)
+        if late or closes < 1 or not data.same_as(stream):
+            return V(False)
+    return V(True)
 
 
 def faults(kind: int, si: int, n: int, at: int) -> bool:
@@ -251,6 +293,10 @@ OBLIGATIONS = [
        functions=FN, stubs=ST),
     Ob("relay_c", relay_c, quick=600, thorough=2400,
        symbolic="upstream status (8), meta in {lang parameter | upper-case latin-1 | redirect target}, 1 (quick) / 2 (thorough) unconstrained body bytes + 0..3000 filler bytes, cut offset",
+       functions=FN, stubs=ST),
+    Ob("relay_twice", relay_twice, quick=400, thorough=1500,
+       symbolic="two consecutive exchanges through ONE ProxyHandler: status (3 x 3 quick / 8 x 8), meta (2 x 2), same or different URL, the first one "
+                "answered / refused / cut inside the header",
        functions=FN, stubs=ST),
     Ob("faults", faults, quick=600, thorough=1800,
        symbolic="fault kind (refuse, TLS failure, close early, reset, stall past the timeout), status, body length, offset at which the upstream dies",
